@@ -23,6 +23,8 @@ type c03Case struct {
 	// Seq > 0: a table of Seq sequential keys k0002, k0004, ... (even numbers, so every odd one is an absent probe in between)
 	Seq    int    `json:"seq,omitempty"`
 	SeqW   int    `json:"seqw,omitempty"` // 1-based index into the write configurations (0 = all)
+	// Big: one table with values beyond every internal size class (pool buckets, buffers): 600 000 and 2^20+5 bytes
+	Big    bool   `json:"big,omitempty"`
 	Sample string `json:"-"`
 }
 
@@ -85,7 +87,9 @@ func (c c03) Run(ctx *core.Ctx) error {
 			cases = append(cases, core.J(c03Case{Seq: n, SeqW: wi + 1}))
 		}
 	}
+	cases = append(cases, core.J(c03Case{Big: true}))
 	ctx.Ev.Bounds["sequential_key_tables"] = sizes
+	ctx.Ev.Bounds["large_value_table"] = "a=600000 incompressible bytes, ab=v, b=2^20+5 incompressible bytes, c=nil; stream writer x data compression {none, snappy} and skip-list writer, loaders {slice, disk}"
 	ctx.Ev.Rule = "every table = ascending subset of 6 keys (\"\", a, ab, b, the marker bytes, a 600-byte key) with values from {nil, empty, v, ..91, marker+00+ff*10, 5000 incompressible bytes} up to the size bound (one size larger with 3 values), written by the stream writer (buffers 5 and 4096) and the skip-list writer, x compression pairs x bloom sizing {1, default}, opened with {slice, skip-list, map[4]byte, disk} loaders x read buffers {5,4096}; probes: Contains/Get for 11 keys (present, absent, below min, above max, between), Scan, ScanStartingAt(each), ScanRange(all pairs, lower>upper must fail), metadata. distinct = (table, write config, read config); non-trivial = table has >= 1 record"
 	ctx.Ev.Bounds["tables_full_value_alphabet"] = nfull
 	ctx.Ev.Bounds["tables_reduced_value_alphabet"] = len(cases) - nfull
@@ -183,6 +187,11 @@ func (c c03) Case(w *core.WCtx, payload json.RawMessage) core.Result {
 			rcfgs = append(rcfgs, tblR{Loader: l, RBuf: rb})
 		}
 	}
+	if cs.Big {
+		sorted = []kv{{[]byte("a"), incompressible(600000, 11)}, {[]byte("ab"), []byte("v")}, {[]byte("b"), incompressible(1<<20+5, 12)}, {[]byte("c"), nil}}
+		wcfgs = []tblW{{Writer: "stream", WBuf: 4096}, {Writer: "stream", DataComp: 2, WBuf: 4096}, {Writer: "skiplist"}}
+		rcfgs = []tblR{{Loader: "slice", RBuf: 4096}, {Loader: "disk", RBuf: 4096}}
+	}
 	if cs.OnlyW != nil {
 		wcfgs = []tblW{*cs.OnlyW}
 	}
@@ -215,7 +224,7 @@ func (c c03) Case(w *core.WCtx, payload json.RawMessage) core.Result {
 		if len(r.Viol) < 8 {
 			w2, r2 := wc, rc
 			r.Viol = append(r.Viol, core.Violation{Sig: sig, Desc: fmt.Sprintf("table %s write=%+v read=%+v: %s", kvsStr(sorted), wc, rc, fmt.Sprintf(f, a...)),
-				Case: core.J(c03Case{KVs: cs.KVs, OnlyW: &w2, OnlyR: &r2})})
+				Case: core.J(c03Case{KVs: cs.KVs, Big: cs.Big, OnlyW: &w2, OnlyR: &r2})})
 		}
 	}
 	for _, wc := range wcfgs {
